@@ -42,8 +42,29 @@ let rec bytes_be k (v : n) : n list =
   if k = 0 then [] else
     let q, r = N.div_eucl v (n_of_int 256) in bytes_be (k - 1) q @ [r]
 
-let handle (p : string) : string =
+let rec handle (p : string) : string =
   match split p with
+  (* dirty-target dimension: the same case with every parse target pre-loaded with an earlier value.
+     Parsers are functions of the text: all property observables are those of the plain case; a
+     rejected text leaves the target as it was (keep, internal), a copy-on-write sibling of the
+     DMX target is untouched (sib). *)
+  | "dirty" :: _ :: ((op :: _) as inner) ->
+    let r = handle (String.concat " " inner) in
+    let parts = String.split_on_char ';' r in
+    let outparam = List.mem op ["su"; "ss"; "hu"; "hs"; "phu"; "phs"; "bool"; "boolt"; "mac"; "ip4"; "ip6"; "sa";
+                                "rtu"; "rts"; "rthu"; "rths"] in
+    let parts = List.map (fun x -> if String.length x > 6 && String.sub x 0 6 = "class=" then
+                                     "class=dirty-" ^ String.sub x 6 (String.length x - 6) else x) parts in
+    let extra = (if outparam && List.mem "ok=0" parts then ["keep=1"] else [])
+                @ (if op = "dmx" then ["sib=1"] else []) in
+    String.concat ";" (parts @ extra)
+  | "dmxseq" :: steps ->
+    (* the stateful object model: block + length, frame printed after every SetFromString *)
+    let i = ref 0 and o = ref dmx_new in
+    String.concat ";" (List.map (fun h -> incr i;
+        if h = "R" then (o := dmx_step !o (OpRange (n_of_int 201, nat_of_int 300)); Printf.sprintf "r%d=1" !i)
+        else if h = "S" then (o := dmx_step !o (OpSet (List.init 20 (fun _ -> n_of_int 238))); Printf.sprintf "r%d=1" !i)
+        else (o := dmx_step !o (OpText (txt h)); Printf.sprintf "d%d=%s" !i (hx (dmx_frame !o)))) steps) ^ ";class=dmxseq"
   | ["su"; w; st; h] ->
     let w = ios w and strict = st = "1" and t = txt h in
     let r = dec_u w strict t in
